@@ -356,8 +356,8 @@ def w_huge(ctx, rng, i):
 
 def w_errors(ctx, rng, i):
     with core.quiet():
-        ctx.raises("errors", TypeError, D.BPF, T.electrical_signal(np.ones(40)), 1e9)
-        ctx.raises("errors", TypeError, D.LPF, [1.0] * 40, 1e9)
+        ctx.probe("bpf.electrical_input", D.BPF, T.electrical_signal(np.ones(40)), 1e9)        # (probe: the statement has no rejection clause)
+        ctx.probe("lpf.list_input", D.LPF, [1.0] * 40, 1e9)
     ctx.case(("err", i))
 
 
